@@ -170,13 +170,15 @@ class RefInst:
                     out.append(c)
         return out
 
-    def guard_cbids(self, t):
+    def guard_cbids(self, t, unique=False):
+        """Guard callbacks of a candidate, once per *occurrence* of their name in its guard entries."""
         out = []
         for expr in list(t.get("cond", [])) + list(t.get("unless", [])):
-            for n in _expr_names(expr):
+            for n in _expr_names(expr, dedupe=False):
                 for c in self.providers(n):
-                    if c not in out:
-                        out.append(c)
+                    if unique and c in out:
+                        continue
+                    out.append(c)
         return out
 
     def _gval(self, name, sv, include_late):
@@ -306,6 +308,7 @@ class RefInst:
                   "members": [{"c": c} for c in self.guard_cbids(t)],
                   "kw": er.get("kwargs", {}), "args": er.get("args", [])}
             ex["items"].append(gi)
+            self._guard_faults(t, gi)
             if not self.enabled(t):
                 continue
             ex["trans"] = t["idx"]
@@ -330,6 +333,15 @@ class RefInst:
         if not self.allow:
             raise RefRaise({"cls": "TransitionNotAllowed", "event": ev, "state": src})
         return None
+
+    def _guard_faults(self, t, gi):
+        """An injected exception in a guard (only generated for 'solo' guards, see C04)."""
+        for c in self.guard_cbids(t, unique=True):
+            full = self.rp.full(c)
+            for r in self.ref.beh.get(full, []):
+                if r.get("raise") and r.get("ep") == self.epoch and r.get("j") is None:
+                    gi["failing"] = True
+                    raise RefRaise({"cls": r["raise"], "sim_cb": full})
 
     def _run_group(self, kind, t, er, ex, view, src, dst):
         ev = er["event"]
@@ -382,6 +394,10 @@ class RefInst:
                 if pending is not None:
                     continue
                 if rule.get("raise"):
+                    if not self.rtc:
+                        for c2 in cbids:
+                            if c2 != c and self._may_send(self.rp.full(c2)):
+                                self.ref.ambiguous = True
                     desc = {"cls": rule["raise"], "sim_id": [full, self.tag, self.epoch, dp, j]}
                     mem["raises"] = desc
                     item["failing"] = True
@@ -401,6 +417,9 @@ class RefInst:
             raise RefRaise(pending)
         return vals
 
+    def _may_send(self, full):
+        return any(r.get("sends") for r in self.ref.beh.get(full, []))
+
     def _fwd(self, s, er, c):
         kw = dict(s.get("kwargs") or {})
         for name in s.get("fwd") or []:
@@ -417,12 +436,12 @@ def _is_name(expr):
     return expr.isidentifier()
 
 
-def _expr_names(expr):
+def _expr_names(expr, dedupe=True):
     if _is_name(expr):
         return [expr]
     out = []
     for n in ast.walk(ast.parse(expr, mode="eval")):
-        if isinstance(n, ast.Name) and n.id not in out:
+        if isinstance(n, ast.Name) and not (dedupe and n.id in out):
             out.append(n.id)
     return out
 
@@ -436,6 +455,7 @@ class Ref:
         self.beh = scenario.get("beh", {})
         self.gv = scenario.get("gv", {})
         self.jc = {}
+        self.ambiguous = False
         self.insts = {}
         self.model_state = {}
         self.sidx = {rp.name: {vkey(rp.value_of[s]): i for i, s in enumerate(rp.sid)} for rp in self.progs}
